@@ -19,6 +19,7 @@ TGRID = [F(0), F(1), F(1, 2), F(3, 2), F(1, 4), F(3, 4), F(5, 2), F(-1, 2),
          F(-3, 2), F(-1, 4), F(-5, 4), F(-5, 2), F(7), F(21, 2), F(1, 3),
          F(-2, 3), F(9, 2), F(-9, 2), F(10 ** 9) + F(1, 2)]
 KS = ['i:3', 'D:0.5', 'F:1/3', 'D:-1.5', 'F:7/2']
+LONG_KS = ['D:151.234567', 'D:0.910523', 'F:1000001/3000000']
 
 USER = [
     ['type', 'P', 'p0', 'F:1/3'],
@@ -219,6 +220,33 @@ def explore_type(ck, tname, syms, other_syms, light=False):
                     if (O.fr(rem.amount) / g).denominator != 1:
                         st.violation('C05:allocate:off-grid',
                                      f"{c}: remainder {rem}", c)
+
+
+def explore_near_ties(ck, tname, syms):
+    """long factors applied to amounts at / next to the ties of the product
+    (solved exactly, see oracle.near_tie_multiples)"""
+    w, st = ck.w, ck.st
+    cls = w.types[tname]
+    base = {'world': ck.world, 'mode': ck.mode}
+    for s in syms:
+        u = w.units[s]
+        g = ck.grid(u)
+        for k in LONG_KS:
+            kk, vk = O.dec(k), O.val(k)
+            for form, fac in (('q*k', vk), ('q/k', 1 / vk)):
+                for n in O.near_tie_multiples(fac, g, g)[:3]:
+                    for sign in (1, -1):
+                        x = sign * n * g
+                        q = cls(F(x), u)
+                        c = dict(base, op='scale-near-tie', unit=s,
+                                 x=str(x), k=k, form=form)
+                        st.state((ck.world, tname, s, 'near-tie', k, form,
+                                  sign * n), nontrivial=True)
+                        if form == 'q*k':
+                            ck.judge('q*k:near-tie', q * kk, x * vk, c, u)
+                            ck.judge('k*q:near-tie', kk * q, x * vk, c, u)
+                        else:
+                            ck.judge('q/k:near-tie', q / kk, x / vk, c, u)
 
 
 def explore_products(ck, pairs, res_tname):
@@ -422,6 +450,7 @@ def run_world(p):
             for b in du:
                 pairs += [('*', a, b), ('*', b, a)]
         explore_products(ck, pairs, 'DataVolume')
+        explore_near_ties(ck, 'DataVolume', syms[:2] + syms[9:10])
     elif name == 'money':
         w = world_money()
         from quantity.money import Money
@@ -429,6 +458,7 @@ def run_world(p):
         ck = Ck(w, st, mode, name)
         syms = CURRENCIES + ['XNK']
         explore_type(ck, 'Money', syms, syms)
+        explore_near_ties(ck, 'Money', syms)
         # price x mass -> money
         res = w.apply(['unit', 'PPM', 'EUR/kg', ['derive', ['EUR', 'kg']]])
         res2 = w.apply(['unit', 'PPM', 'JPY/kg', ['derive', ['JPY', 'kg']]])
@@ -445,6 +475,7 @@ def run_world(p):
             return st
         ck = Ck(w, st, mode, name)
         explore_type(ck, 'P', ['p0', 'p7', 'pt'], ['p0', 'p7', 'pt'])
+        explore_near_ties(ck, 'P', ['p0', 'p7', 'pt'])
         explore_type(ck, 'P2', w.tm['P2'].units, w.tm['P2'].units)
         explore_type(ck, 'PI', w.tm['PI'].units, w.tm['PI'].units)
         explore_powers(ck, ['p0', 'p7', 'pt', 'pi0', 'pi7'], [2, -1, -2])
